@@ -222,6 +222,9 @@ def opaque_setitem(ex, obj, idx, val, fr):
 def call_opaque(ex, f, args, kwargs, fr):
     if isinstance(f, VOpaque) and f.kind == "partial":
         return call_partial(ex, f, args, kwargs, fr)
+    if isinstance(f, VOpaque) and f.kind == "itemgetter":
+        got = [ex.getitem(args[0], i, fr) for i in f.info["items"]]
+        return got[0] if len(got) == 1 else VTuple(got)
     h = ex.cfg.lib_overrides.get(("call", getattr(f, "kind", None) or ex.cls_name(f.cls)))
     if h is not None:
         return h(ex, f, args, kwargs, fr)
@@ -488,6 +491,36 @@ def py_hash(ex, v):
         f = _HASH_FUNCS.setdefault(("tuple", len(hs)), z3.Function(f"py_hash_tuple{len(hs)}", *([z3.IntSort()] * len(hs)), z3.IntSort()))
         return f(*hs) if hs else z3.Int("py_hash_empty_tuple")
     raise Unsupported(f"hash of {v!r}")
+
+
+@libfn("operator.itemgetter")
+def _itemgetter(ex, args, kwargs, fr):
+    return VOpaque("itemgetter", None, {"items": list(args)})
+
+
+@libfn("itertools.groupby")
+def _groupby(ex, args, kwargs, fr):
+    """itertools.groupby(iterable, key): CONSECUTIVE items with equal keys form one group, in order (library contract); keys are
+    compared as the program's == would (symbolic keys branch)."""
+    items = ex.iterate(args[0], fr)
+    keyf = kwargs.get("key", args[1] if len(args) > 1 else None)
+    out = []
+    for x in items:
+        k = x if keyf is None or isinstance(keyf, VNone) else ex.call(keyf, [x], {}, fr)
+        if out:
+            c = ex.eq(out[-1][0], k, fr)
+            if (c is True) or (not isinstance(c, bool) and ex.st.branch(c)):
+                out[-1][1].append(x)
+                continue
+        out.append((k, [x]))
+    return ex.st.alloc(HList([VTuple([k, ex.st.alloc(HList(g))]) for k, g in out]))
+
+
+@libfn("collections.defaultdict")
+def _defaultdict(ex, args, kwargs, fr):
+    r = ex.st.alloc(HDict([]))
+    ex.st.cell(r).default_factory = args[0] if args else None
+    return r
 
 
 @libfn("collections.Counter")
